@@ -5,8 +5,11 @@ import GoldModel.Lemmas.ProgRoundTrip
 
 `Stmt`, `Decl`, `Prog` (`Model/Prog.lean`) are the abstract syntax the property speaks about:
 
-* statements — assignment `lhs = e` (also `-=`, `+=`, `:=`; `lhs` whatever `ExprSpec.lhsb` admits: for `Ex` an
-  identifier), expression statement, `return e`, `exit`/`break`/`continue`, `var x : T [absolute y]`,
+* statements — assignment `lhs = e` (also `-=`, `+=`, `:=`; `lhs` whatever `ExprSpec.lhsb` admits: for `Ex` any
+  member-access chain `a.b(1).c[i]`, `Ex.isChain`), expression statement (whatever `ExprSpec.stmtb` admits: for `Ex`
+  every expression `parse_assignment` does not take, `Ex.naB` — calls `f(x)`, chains `a.b.c(1)`, `a.b++`, `not x`,
+  `a < b`, …; only `chain = …` at the left end is the assignment instead — whose first token no earlier statement
+  parser and no preceding expression reacts to: not `(`, `[`, `-`, a statement keyword), `return e`, `exit`/`break`/`continue`, `var x : T [absolute y]`,
   `type aName : T`, `uses a, b`, `const c = lit [multiLang]`, and the blocks
   `if e … [elseif e …]* [else …] endif`, `while e … endwhile`, `loop … endloop`,
   `for i = e to|downto e [step e] … endfor`, `foreach e … endfor`, `repeat … until e`,
@@ -34,9 +37,9 @@ method body contains no terminator of the method (`wfb` is the executable form, 
 Expressions are a PARAMETER (`ExprSpec ε`).  The statement layer needs only `ExprSpec.Sound`:
 `parse_expr (print e ++ k) = (tree e, k)` with no diagnostic before every continuation `k` that cannot extend an
 expression; an expression that may stand as a statement is not taken by `parse_assignment`; an assignment
-target is taken by `parse_dot_ops`.  `exSpec_sound` discharges it for `Ex` by `expr_roundtrip`; nothing here
-looks inside `Ex` beyond "an atom is an assignment target", so the theorems extend to whatever `Ex` grows into
-(`noAssign_of_dotops`, `lhs_of_dotops` are the lemmas an instance with calls / member chains needs).
+target is taken by `parse_dot_ops`.  `exSpec_sound` discharges it for `Ex` (the full expression grammar of
+`Model/Expr.lean`) by `expr_roundtrip`, `chain_roundtrip` and `na_sound` (the decidable `Ex.naB` is sound: before
+a continuation that cannot extend a chain, `parse_assignment` fails silently on such an expression).
 
 The theorems are about the model of `src/parser/{mod,body_parser}.rs` (`Model/Grammar.lean`, byte-exact with the
 implementation on the correspondence cases).  All are unbounded: any number of declarations, statements,
@@ -47,8 +50,7 @@ absent option list, which emit nothing.
 
 NOT covered: comments (the token parsers skip them, so where a comment becomes a node depends on what follows
 it, and `Stop` — the continuation predicate of the expression theorem — excludes them), OQL, annotations inside
-enumerations and records, and whatever `Ex` does not cover (unary operators, calls, member access, indexing, set
-literals — being added to `Ex` independently).
+enumerations and records.  The TEXT-level corollary is `Props/C06ProgText.lean`.
 -/
 namespace Gold.C06
 open Gold Gold.Peg Gold.Gram
@@ -108,7 +110,7 @@ theorem prog_roundtrip_memo (p : Prog ε) (h : Prog.WF X p) :
 
 omit hX
 
-/-! ## instantiation with `Ex` (binary operators, atoms, parentheses — and whatever it grows into) -/
+/-! ## instantiation with `Ex` (the full expression grammar) -/
 
 /-- `expr_roundtrip`, `chain_roundtrip` and `na_sound` are what the statement layer assumes:
     * any well-formed expression where an expression is expected;
